@@ -499,7 +499,7 @@ class CallMixin:
         locs = frozenset(base.alias)
         if not self.field_table_ready:
             self.record_field_elem(locs, val, "add", frame, key=idx)
-        val2 = val.with_deps(st.ctrl | idx.deps)
+        val2 = val.with_deps(st.ctrl | all_deps(idx))
         self.ev(frame, st, "write", node, recv=base, args=(idx,), value=val2, target=locs, wkind=wkind)
         if locs:
             frame.mutations.append((locs, val2, "add"))
